@@ -18,7 +18,7 @@ import asyncio
 import hashlib
 
 from apphelp import AppRig
-from props import c03
+from props import c03, pit_extract
 
 PROP = 'C05'
 TITLE = 'Nothing that requires validation reaches the application unvalidated'
@@ -27,15 +27,34 @@ THEOREMS = ['Ndn.C05.' + t for t in (
     'data_only_if_accepted', 'other_verdict_failure', 'every_verdict_decides', 'resolve_awaited', 'validator_late_timeout',
     'tie_data_only_if_accepted',
     'interest_digest_gate', 'interest_validated_before_handler_v2', 'interest_validated_before_handler_v1',
-    'interest_rejected_by_verdict', 'plain_interest_no_validator')]
+    'interest_rejected_by_verdict', 'plain_interest_no_validator',
+    # the models compute with / are pinned to the tables generated from the source text (lean/NdnGen/C05.lean, C03.lean)
+    'onInterest_eq_ref', 'digest_check_exact', 'gen_valid_result', 'gen_data_delivers', 'gen_interest_delivers',
+    'gen_gate_order', 'gen_gate_when', 'gen_digest_checkers')] + [
+    # pins of the verdict part of the PIT table, on which every lemma file of C03 / C05 is built (Lemmas/PitGen.lean)
+    'Ndn.C03.gen_data_verdict', 'Ndn.C03.gen_table_ok']
 PARTIAL = {}
 TRUSTED = c03.TRUSTED + [
+    'C05: lean/NdnGen/C05.lean is regenerated from the source text of appv2.py / app.py / types.py / '
+    'security/validator/digest_validator.py by every run (harness/props/pit_extract.py, ast only): when the digest check '
+    'and the validator are required, what stands in for a missing route validator, the verdict of a plain Interest and '
+    'the delivering verdicts are VALUES THE GATE MODEL COMPUTES WITH (onInterest_eq_ref evaluates them); the member '
+    'list of ValidResult, the order of the gate steps, the `==` of params_sha256_checker / sha256_digest_checker (full '
+    'equality, digest_check_exact), their emptiness guards, the SignaturePtrs fields they read and the legacy default '
+    'validators are PINNED by gen_*. Trusted as for C03: the extractor and its normalisation',
     'C05: validators are scripts (verdict, latency); the packets a validator sees are identified by their signature '
     'value; the legacy default validators (sha256_digest_checker) are represented by the answer they give for the '
     'packet the harness built (valid / corrupted DigestSha256 signature)',
     'C05: the incoming-Interest gate is modelled after decoding and route lookup (decoding = C07, dispatch = C04); '
     'params_sha256_checker is observed through a logging wrapper installed by the harness',
 ]
+def extract(repo):
+    """lean/NdnGen/C05.lean from the source text; the PIT table (C03) is refreshed with it: the Data side of this
+    property is stated over the PIT model"""
+    c03._refresh('C03', pit_extract.generate_c03(repo))
+    return pit_extract.generate_c05(repo)
+
+
 RULE = ('(a) the event histories of C03 (incl. its hardening dimensions: parameterised / signed Interests, MustBeFresh, '
         'need_raw_packet, Data inside LpPackets, bursts in one loop turn, lifetime 0, no_response, late awaits - all of them '
         'put to the model, ties as membership in the set of outcome vectors it allows) with validator verdicts drawn from all ValidResult values / truthiness (v2: also values that are no ValidResult member - False, None, 0, True, the string PASS - which must not deliver) and the '
@@ -460,7 +479,10 @@ LEVEL_TEXT = ('Lean 4 theorems (a) over the pending-Interest model of C03 (incl.
               'front-end; plain Interests are delivered without consulting a validator. Tied to the code on every run by '
               'differential execution against the real NDNApp (v2 and legacy) with scripted validators and handlers on a '
               'virtual-time loop, plus the property oracle on the implementation.')
-LEVEL_NOTE = ('Proof is about the model; model=code is sampled, not proved. Legacy front-end: the validator runs after '
+LEVEL_NOTE = ('Proof is about the model; model=code is sampled and - for the delivering verdicts, the except clauses around the '
+              'validator call, the gate conditions and order, the ValidResult members and the digest comparison - read off the '
+              'source text on every run (lean/NdnGen/C05.lean, C03.lean; pinned by gen_* / evaluated by onInterest_eq_ref), '
+              'not proved. Legacy front-end: the validator runs after '
               'wait_for, so a validator that outlives the lifetime still decides (finding F15, known finding, reproduced '
               'by the oracle and exhibited as a Lean counterexample); validator_late_timeout is therefore stated for the '
               'current front-end only.')
